@@ -242,7 +242,12 @@ func ufDatagram(f, k string, pid int, rng *rand.Rand) []byte {
 		b := []byte{0x40 | byte(pid&0x3f), byte(pid), 0xde, 0xad}
 		return append(b, bytes.Repeat([]byte{byte(pid)}, 40+pid)...)
 	}
-	hs := ufClientHello(fl.name)
+	name := fl.name
+	if k == "jf" { // a second connection on the same addresses and ports: other connection ids, other name
+		name = "second.net"
+		dcid[0] ^= 0x55
+	}
+	hs := ufClientHello(name)
 	cut := len(hs) / 2
 	var payload []byte
 	switch k {
@@ -250,7 +255,7 @@ func ufDatagram(f, k string, pid int, rng *rand.Rand) []byte {
 		payload = ufCrypto(hs, 0, cut)
 	case "i2":
 		payload = ufCrypto(hs, cut, len(hs))
-	case "if":
+	case "if", "jf":
 		payload = ufCrypto(hs, 0, len(hs))
 	}
 	pnLen := 1 + (pid+int(dcid[7]))%4
